@@ -93,7 +93,7 @@ def make_sampler(kind, post, d, rng, temperature=1.0, bounds=None, seed=1, **kw)
         nw = kw.get("n_walkers", 2 * d + 2)
         pos = start[None, :] + 0.3 * rng.normal(size=(nw, d))
         if bounds is not None:
-            pos = np.clip(pos, bounds[0] + 0.01 * (bounds[1] - bounds[0]), bounds[1] - 0.01 * (bounds[1] - bounds[0]))
+            pos = bounds[0] + (bounds[1] - bounds[0]) * rng.uniform(0.05, 0.95, size=(nw, d))
         ch = EnsembleSampler(posterior=post, starting_positions=pos, bounds=bounds, display_progress=False)
     else:
         raise ValueError(kind)
